@@ -25,6 +25,9 @@ func (m *Mutex) Lock() {
 	t := Select("mutex.Lock", false, S(m.ch))
 	m.ch <- struct{}{}
 	t.Done()
+	if t.g != nil {
+		t.g.locks++
+	}
 }
 
 func (m *Mutex) TryLock() bool {
@@ -50,6 +53,12 @@ func (m *Mutex) Unlock() {
 	case <-m.ch:
 	default:
 		panic("sync: unlock of unlocked mutex")
+	}
+	if s := cur; s != nil {
+		s.dirty = append(s.dirty, chanPtr(m.ch)) // waiters in Lock() must be looked at again
+		if s.current != nil && s.current.locks > 0 {
+			s.current.locks--
+		}
 	}
 }
 
